@@ -169,3 +169,82 @@ Example ex_extremes :
       Done st (RConsumer [(1, [mkCpart [None; None; Some (mkCoff (-9223372036854775808) 1 100000 (Some 18446744073709551615))]
                                        [9223372036854775807] 0 0 18446744073709551615])]).
 Proof. exact ex_extreme_ok. Qed.
+
+(* ===== audit A strengthening (builder lag): three composed statements.  They need C02's window shape, hence RingProofs. ===== *)
+From Burrow Require Import RingProofs StorageWindows.
+
+(* [arrivals cf cls h c g t p] (StorageWindows.v; the same list as in C02_storage_ring_provenance): the SetConsumerOffset
+   requests of h for exactly (c,g,t,p) that storage did not drop on arrival (configured cluster, not older than expire-group,
+   accepted group, a broker offset known for the partition) since the request that last removed that ring (DeleteTopic,
+   DeleteGroup, expiry purge), each paired with the lag value the handler attaches.  StorageWindows.hist_sim_correct gives the
+   same list as a recursion over the history alone (h_arrivals). *)
+
+(* "the consumer's most recent commit (the one latest in the offsets log)": the commit k the current lag is computed from has
+   the greatest log position of all commits of that partition that reached the ring, and is one of them; with an empty newest
+   slot no commit has reached the ring. *)
+Theorem current_lag_latest_in_log :
+  forall cf cls h st reps now c g st' l t cps i cp,
+  (1 <= cf_intervals cf)%nat -> wf_hist h ->
+  run cf (init_state cls) h = Some (st, reps) ->
+  fetch_consumer cf now st c g = Done st' (RConsumer l) ->
+  In (t, cps) l -> nth_error cps i = Some cp ->
+  let arr := arrivals cf cls h c g t (Z.of_nat i) in
+  match last (cp_offsets cp) None with
+  | Some k => (exists b, last_broker h c t (Z.of_nat i) = Some b /\
+                         cp_lag cp = Z.max 0 (b - co_offset k) /\ 0 <= cp_lag cp < two64) /\
+              (exists cl, In cl arr /\ cm_order (fst cl) = co_order k) /\
+              (forall cl, In cl arr -> cm_order (fst cl) <= co_order k)
+  | None => cp_lag cp = 0 /\ arr = []
+  end.
+Proof. exact StorageWindows.current_lag_latest_in_log. Qed.
+Print Assumptions current_lag_latest_in_log.
+
+(* stored_lag_exact at full strength (neither "never store a lag" nor "guess" satisfies it): every reported commit e was
+   written by an arrival y of its ring epoch with e's offset and log position; y is a SetConsumerOffset of the history and the
+   lag attached to it is max 0 (b - offset) < 2^64 for the last broker offset b recorded before it; if e carries a lag it is
+   exactly that value; if e carries none, an arrival of the same epoch BEFORE y had a log position at least as high, i.e. y
+   did arrive out of order. *)
+Theorem stored_lag_exact_strong :
+  forall cf cls h st reps now c g st' l t cps i cp e,
+  (1 <= cf_intervals cf)%nat -> wf_hist h ->
+  run cf (init_state cls) h = Some (st, reps) ->
+  fetch_consumer cf now st c g = Done st' (RConsumer l) ->
+  In (t, cps) l -> nth_error cps i = Some cp -> In (Some e) (cp_offsets cp) ->
+  exists l1 y l3,
+    arrivals cf cls h c g t (Z.of_nat i) = l1 ++ y :: l3 /\
+    cm_offset (fst y) = co_offset e /\ cm_order (fst y) = co_order e /\
+    (exists h1 now' rest b,
+       h = h1 ++ (now', SetConsumerOffset c g t (Z.of_nat i) (co_offset e) (co_order e) (cm_ts (fst y))) :: rest /\
+       last_broker h1 c t (Z.of_nat i) = Some b /\
+       snd y = Z.max 0 (b - co_offset e) /\ 0 <= snd y < two64) /\
+    match co_lag e with
+    | Some v => v = snd y
+    | None => exists l1a x l1b, l1 = l1a ++ x :: l1b /\ co_order e <= cm_order (fst x)
+    end.
+Proof. exact StorageWindows.stored_lag_exact_strong. Qed.
+Print Assumptions stored_lag_exact_strong.
+
+(* an in-order commit IS stored with its lag: a commit that is not dropped on arrival ([reaches_ring] = Some b: configured
+   cluster, not too old, accepted group, broker offset b known — state-free reading: StorageProofs.reaches_ring_history) and
+   whose log position is above the newest stored one (or the ring is empty) is, after the step, the newest slot of its ring,
+   carrying lag = max 0 (b - offset) with b the last recorded broker offset. *)
+Theorem commit_in_order_stored :
+  forall cf cls h st reps now c g t p off order ts st' rep b,
+  (1 <= cf_intervals cf)%nat -> wf_hist h -> in_i64 off ->
+  run cf (init_state cls) h = Some (st, reps) ->
+  step cf now st (SetConsumerOffset c g t p off order ts) = Done st' rep ->
+  reaches_ring cf now st c g t p ts = Some b ->
+  (forall nw, hd None (ring_of cf st c g t p) = Some nw -> co_order nw < order) ->
+  last_broker h c t p = Some b /\
+  exists e, hd None (ring_of cf st' c g t p) = Some e /\
+            co_offset e = off /\ co_order e = order /\
+            co_lag e = Some (Z.max 0 (b - off)) /\ 0 <= Z.max 0 (b - off) < two64.
+Proof. exact StorageWindows.commit_in_order_stored. Qed.
+Print Assumptions commit_in_order_stored.
+
+(* non-vacuity of the provenance clause: in the out-of-order history the entry at log position 3 carries no lag and the
+   arrival at position 5 precedes its arrival; the entry at position 5 carries the lag attached to its arrival *)
+Example ex_entry_provenance :
+  entry_prov (arrivals ex_cfg [1] ex_ooo 1 1 1 0) (mkCoff 40 3 99000 None) /\
+  entry_prov (arrivals ex_cfg [1] ex_ooo 1 1 1 0) (mkCoff 50 5 100000 (Some 50)).
+Proof. exact ex_entry_prov_ooo. Qed.
